@@ -1,8 +1,10 @@
 package desync
 
 import (
+	"bytes"
 	"encoding/binary"
 	"io"
+	"math"
 )
 
 type reader struct {
@@ -21,15 +23,31 @@ func (r reader) ReadUint64() (uint64, error) {
 
 // ReadN returns the next n bytes from the reader or an error if there are not
 // enough left
+// ReadN reads exactly n bytes. n usually comes straight from the input, so it
+// can't be trusted with one big allocation up front: beyond a certain size the
+// buffer grows only as the data actually arrives.
 func (r reader) ReadN(n uint64) ([]byte, error) {
-	b := make([]byte, n)
-	if _, err := io.ReadFull(r, b); err != nil {
+	const maxPrealloc = 64 << 10
+	if n <= maxPrealloc {
+		b := make([]byte, n)
+		if _, err := io.ReadFull(r, b); err != nil {
+			return nil, err
+		}
+		return b, nil
+	}
+	if n > math.MaxInt64 {
+		return nil, InvalidFormat{"length field too large"}
+	}
+	buf := new(bytes.Buffer)
+	if _, err := io.CopyN(buf, r, int64(n)); err != nil {
+		if err == io.EOF {
+			err = io.ErrUnexpectedEOF
+		}
 		return nil, err
 	}
-	return b, nil
+	return buf.Bytes(), nil
 }
 
-// ReadID reads and returns a ChunkID
 func (r reader) ReadID() (ChunkID, error) {
 	b := make([]byte, 32)
 	if _, err := io.ReadFull(r, b); err != nil {
